@@ -143,7 +143,7 @@ def handle (cmd : String) (j : J) : Except String J :=
     let n := resolve sfx suffix uid
     let fs := getFormatSuffixes uid
     pure (J.obj [("chk1", S n.chk1), ("file", S n.file), ("chk2", S n.chk2), ("md5", S n.md5),
-      ("dropkey", S (dropKey sfx uid)), ("dropmd5", S (dropMd5 uid)), ("md5lookup", S (md5Lookup sfx uid)),
+      ("dropkey", S (dropKey sfx uid)), ("dropmd5", S (dropMd5 uid)), ("md5lookup", S (md5Lookup sfx (pathName uid))),
       ("stem", S (pathStem uid)), ("fs", J.arr [optS fs.1, optS fs.2]),
       ("suffixes", J.arr ((pathSuffixes uid).map S)), ("special", J.bool (special uid)),
       ("infix", J.bool (isInfix sfx uid)), ("ends", J.bool (endsWith uid sfx)),
